@@ -499,6 +499,7 @@ class offsets_in_query_order:
     change + beat distance at its tempo.  bpm_changes_snap() is used through its contract."""
 
     max_paths = 6000
+    explore_s = 300
     args_thorough = dict(self=Choice([TmT(n) for n in (1, 2, 3)]), snaps=Choice([ListT(SnapT(), m) for m in (1, 2, 3)]))
     assumes = ["shape-bounded: 1..2 (thorough: 3) tempo changes x 1..2 (thorough: 3) queries, all values symbolic; arbitrary query count by offsets_sweep_step + argsort un-permutation (A2)"]
 
@@ -587,3 +588,127 @@ class offsets_sweep_step:
             act = max(j for j in range(n) if snap_ge(q, bcs[j].snap))
             bc_i = rng.randrange(act, n) - n
             yield dict(n=n, self=tm, bcs_s=bcs, snap=q, bc_i=bc_i, offsets=[])
+
+
+# ----------------------------------------------------------------------------- TimingMap.snaps / beats
+
+
+def active_index_by_offset(bco, t):
+    k = 0
+    for i in range(1, len(bco)):
+        k = i if bco[i].offset <= t else k
+    return k
+
+
+@contract("C10", TM + ".snaps", args=dict(self=Choice([TmT(n) for n in (1, 2)]), offsets=Choice([ListT(Real(), m) for m in (1, 2)]), snapper=SnapperT()),
+          use=["bpm_changes_snap_shape", "snap_from_offset"])
+class snaps_in_query_order:
+    """result[i] is the position of the i-th queried time (any order, duplicates): within the active segment
+    the beat distance from the segment's change equals the elapsed beats, up to 1/192 beat (nearest grid)."""
+
+    max_paths = 6000
+    args_thorough = dict(self=Choice([TmT(n) for n in (1, 2, 3)]), offsets=Choice([ListT(Real(), m) for m in (1, 2, 3)]))
+    assumes = ["shape-bounded: 1..2 (thorough: 3) tempo changes x 1..2 (thorough: 3) queries; from_offset and bpm_changes_snap through their contracts"]
+
+    def requires(self, offsets, snapper):
+        b = self.bpm_changes_offset
+        return (all(wf_bco(x) for x in b) and all(x.offset < y.offset for x, y in zip(b[:-1], b[1:]))
+                and all(t >= b[0].offset for t in offsets))
+
+    def native_call(self, offsets, snapper):
+        return list(self.snaps(list(offsets), snapper))
+
+    def ensures_each_query_positioned(self, offsets, snapper, result):
+        b = self.bpm_changes_offset
+        bcs = self.bpm_changes_snap()
+        ok = len(result) == len(offsets)
+        for i in range(len(offsets)):
+            for k in range(len(b)):
+                is_active = b[k].offset <= offsets[i] and all(implies(j > k, b[j].offset > offsets[i]) for j in range(len(b)))
+                d = (result[i].measure - bcs[k].snap.measure) * b[k].metronome + (result[i].beat - bcs[k].snap.beat)
+                ok = ok and implies(is_active, abs(d - (offsets[i] - b[k].offset) * b[k].bpm / 60000) <= Fraction(1, 192))
+        return ok
+
+    def witnesses(rng):
+        from reamber.algorithms.timing.TimingMap import TimingMap
+        from reamber.algorithms.timing.utils.Snapper import Snapper
+
+        for _ in range(120):
+            n = rng.randrange(1, 4)
+            cs = _rand_changes(rng, n, metro=4)
+            tm = TimingMap.from_bpm_changes_snap(float(rng.randrange(-500, 500)), cs, reseat=False)
+            t0 = tm.bpm_changes_offset[0].offset
+            yield dict(self=tm, offsets=[t0 + rng.uniform(0, 20000) for _ in range(rng.randrange(1, 4))], snapper=Snapper())
+
+
+
+# ----------------------------------------------------------------------------- bounded: the whole engine against exact rationals
+
+
+def _oracle_ms(changes, initial, pos_beats):
+    """changes: [(start_beats, bpm)] sorted; exact integration in Fractions."""
+    t = Fraction(initial)
+    for i, (b0, bpm) in enumerate(changes):
+        b1 = changes[i + 1][0] if i + 1 < len(changes) else None
+        if b1 is None or pos_beats < b1:
+            return t + (pos_beats - b0) * Fraction(60000) / Fraction(bpm)
+        t += (b1 - b0) * Fraction(60000) / Fraction(bpm)
+    raise AssertionError
+
+
+@bounded("C10", note="whole timing engine on random tempo lists against exact rational integration (A1 side check, cumulative beats, query order, ms->position->ms)")
+def engine_vs_rational_oracle(rep):
+    from reamber.algorithms.timing.TimingMap import TimingMap
+    from reamber.algorithms.timing.utils.Snapper import Snapper
+    from reamber.algorithms.timing.utils.BpmChangeSnap import BpmChangeSnap
+    from reamber.algorithms.timing.utils.snap import Snap
+
+    rng = rep.rng
+    sn = Snapper()
+    N = rep.n(250, 6000)
+    rep.bound = f"{N} random tempo lists: 1..5 changes on measure lines, metronome 1..8 (constant per list), bpm from a pool, initial offset in [-5000, 5000], 1..8 shuffled queries with duplicates on the 1/48 grid and off grid"
+    rep.rule = "a case is one (tempo list, query multiset); non-trivial when it has >= 2 changes or >= 2 queries"
+    for _ in range(N):
+        if rep.out_of_time(25, 300):
+            break
+        metro = rng.randrange(1, 9)
+        n = rng.randrange(1, 6)
+        measures = sorted(rng.sample(range(1, 30), n - 1))
+        bpms = [rng.choice([60, 90, 120, 150, 177.5, 200, 333]) for _ in range(n)]
+        init = rng.choice([0, -1234.5, 250, 5000, -5000])
+        cs = [BpmChangeSnap(bpms[0], metro, Snap(0, 0, metro))] + [BpmChangeSnap(bpms[i + 1], metro, Snap(m, 0, metro)) for i, m in enumerate(measures)]
+        order = list(range(n))
+        rng.shuffle(order)
+        tm = TimingMap.from_bpm_changes_snap(init, [cs[i] for i in order], reseat=False)
+        changes = [(Fraction(0), Fraction(repr(bpms[0])))] + [(Fraction(m * metro), Fraction(repr(bpms[i + 1]))) for i, m in enumerate(measures)]
+        q = []
+        for _ in range(rng.randrange(1, 9)):
+            q.append(Fraction(rng.randrange(0, 35 * metro * 48), 48))
+        q += rng.sample(q, min(2, len(q)))
+        rng.shuffle(q)
+        case = dict(metro=metro, init=init, changes=[(str(a), str(b)) for a, b in changes], queries=[str(x) for x in q])
+        rep.case(case, nontrivial=(n >= 2 or len(q) >= 2))
+        snaps = [Snap(int(x // metro), x % metro, metro) for x in q]
+        got = tm.offsets(snaps)
+        want = [_oracle_ms(changes, Fraction(repr(float(init))), x) for x in q]
+        for i in range(len(q)):
+            if not rep.expect(abs(float(got[i]) - float(want[i])) <= 1e-6, "offsets_equal_integration_in_query_order", case, f"query {i}: got {got[i]} want {float(want[i])}"):
+                break
+        # ms -> position -> ms on the grid is exact; off the grid within 1/192 beat at the local tempo
+        back = tm.snaps([float(w) for w in want], sn)
+        for i in range(len(q)):
+            pb = back[i].measure * metro + back[i].beat
+            if not rep.expect(abs(float(pb - q[i])) <= 1e-7, "grid_time_maps_back_to_its_position", case, f"query {i}: position {pb} want {q[i]}"):
+                break
+        off = [float(w) + rng.uniform(0, 3) for w in want]
+        back2 = tm.offsets(list(tm.snaps(off, sn)))
+        for i in range(len(q)):
+            slow = min(bpms)
+            if not rep.expect(abs(back2[i] - off[i]) <= 60000 / slow / 192 + 1e-6, "offgrid_time_comes_back_within_grid", case, f"{off[i]} -> {back2[i]}"):
+                break
+        # cumulative beats: differences equal beat distance, monotone with time, in query order
+        beats = tm.beats([float(w) for w in want], sn)
+        for i in range(len(q)):
+            for j in range(len(q)):
+                if not rep.expect(abs(float(beats[i] - beats[j]) - float(q[i] - q[j])) <= 1e-7, "cumulative_beats_difference", case, f"{i},{j}: {beats[i]-beats[j]} want {q[i]-q[j]}"):
+                    break
